@@ -5,6 +5,7 @@ decoding mirrors its encoding since /repo commit e089897); `drv_codec --asis-f7`
 decoder that had finding F7 (`decode false`) — only useful against a tree with that commit reverted.
 -/
 import QbiceVerif.Model.Codec
+import QbiceVerif.Model.CodecNested
 
 open QbiceVerif.Codec
 
@@ -434,6 +435,220 @@ def doJ (fix : Bool) (fields : List String) : String :=
       iOutcome (tys.map (·.d)) stream.length (decodeItems fix hash mtys stream I0)
   | _ => "bad-op"
 
+
+/-! nested interned handles (`Model/CodecNested`): ops `N` (valid encoding + junk) and `O` (mutated stream) -/
+
+section nested
+open QbiceVerif.Codec.Nested
+
+/-- nested descriptor: `P<desc>` plain, `H<tid>` handle, `S(d)` sequence, `O(d)` option, `T(d,..)` tuple/struct,
+    `E(d,..)` enum (each variant a `T(..)`) -/
+inductive ND where
+  | plain (d : D) | handle (tid : Nat) | seq (d : ND) | opt (d : ND) | tup (ds : List ND) | enm (ds : List ND)
+  deriving Inhabited
+
+partial def ND.toNTy : ND → NTy
+  | .plain d => .plain d.toTy
+  | .handle tid => .handle tid
+  | .seq d => .seq d.toNTy
+  | .opt d => .opt d.toNTy
+  | .tup ds => .tuple (ds.map ND.toNTy)
+  | .enm ds => .enum (ds.map ND.toNTy)
+
+mutual
+  partial def parseND : Parser ND
+    | 'P' :: cs => (parseD cs).map (fun (d, r) => (.plain d, r))
+    | 'H' :: cs => (parseNat cs).map (fun (n, r) => (.handle n, r))
+    | 'S' :: '(' :: cs => do let (d, r) ← parseND cs; let (_, r) ← expect ')' r; some (.seq d, r)
+    | 'O' :: '(' :: cs => do let (d, r) ← parseND cs; let (_, r) ← expect ')' r; some (.opt d, r)
+    | 'T' :: '(' :: cs => do let (ds, r) ← parseNDs cs; some (.tup ds, r)
+    | 'E' :: '(' :: cs => do let (ds, r) ← parseNDs cs; some (.enm ds, r)
+    | _ => none
+  partial def parseNDs : Parser (List ND)
+    | ')' :: r => some ([], r)
+    | cs => do
+      let (d, r) ← parseND cs
+      match r with
+      | ',' :: r => do let (ds, r) ← parseNDs r; some (d :: ds, r)
+      | ')' :: r => some ([d], r)
+      | _ => none
+end
+
+def parseEnv (s : String) : Option (List (Nat × ND)) :=
+  (splitSemi s).mapM (fun e =>
+    match splitOn1 e '=' with
+    | [tid, ds] => (match parseND ds.toList with | some (d, []) => some (tid.toNat!, d) | _ => none)
+    | _ => none)
+
+def envND (tbl : List (Nat × ND)) (tid : Nat) : ND :=
+  match tbl.find? (fun e => e.1 == tid) with
+  | some e => e.2
+  | none => .tup []
+
+/-- a value as the harness prints it: every handle comes with its hash -/
+inductive HV where
+  | plain (v : Val) | handle (tid hash : Nat) (p : HV) | list (vs : List HV) | tagged (i : Nat) (p : HV)
+  deriving Inhabited
+
+partial def HV.toNVal : HV → NVal
+  | .plain v => .plain v
+  | .handle tid _ p => .handle tid p.toNVal
+  | .list vs => .list (vs.map HV.toNVal)
+  | .tagged i p => .tagged i p.toNVal
+
+partial def HV.table : HV → List (Nat × NVal × Nat)
+  | .plain _ => []
+  | .handle tid h p => (tid, p.toNVal, h) :: p.table
+  | .list vs => (vs.map HV.table).flatten
+  | .tagged _ p => p.table
+
+mutual
+  partial def parseHV (env : Nat → ND) (d : ND) : Parser HV := fun cs =>
+    match d with
+    | .plain pd => (parseV pd cs).map (fun (v, r) => (.plain v, r))
+    | .handle tid => do
+      let (_, r) ← expect 'h' cs
+      let (h, r) ← parseNat r
+      let (_, r) ← expect '{' r
+      let (p, r) ← parseHV env (env tid) r
+      let (_, r) ← expect '}' r
+      some (.handle tid h p, r)
+    | .seq ed => do let (vs, r) ← parseHVs env cs (fun _ => some ed); some (.list vs, r)
+    | .tup ds => do
+      let (vs, r) ← parseHVs env cs (fun i => ds[i]?)
+      if vs.length = ds.length then some (.list vs, r) else none
+    | .opt ed => do
+      let (_, r) ← expect '#' cs
+      let (tag, r) ← parseNat r
+      let (_, r) ← expect '(' r
+      if tag = 0 then do
+        let (_, r) ← expect '[' r; let (_, r) ← expect ']' r; let (_, r) ← expect ')' r
+        some (.tagged 0 (.list []), r)
+      else do
+        let (p, r) ← parseHV env ed r
+        let (_, r) ← expect ')' r
+        some (.tagged tag p, r)
+    | .enm ds => do
+      let (_, r) ← expect '#' cs
+      let (tag, r) ← parseNat r
+      let (_, r) ← expect '(' r
+      let vd ← ds[tag]?
+      let (p, r) ← parseHV env vd r
+      let (_, r) ← expect ')' r
+      some (.tagged tag p, r)
+  partial def parseHVs (env : Nat → ND) (cs : List Char) (f : Nat → Option ND) : Option (List HV × List Char) := do
+    let (_, r) ← expect '[' cs
+    match r with
+    | ']' :: r => some ([], r)
+    | _ => parseHVList env r f 0
+  partial def parseHVList (env : Nat → ND) (cs : List Char) (f : Nat → Option ND) (i : Nat) : Option (List HV × List Char) := do
+    let d ← f i
+    let (v, r) ← parseHV env d cs
+    match r with
+    | ',' :: r => do let (vs, r) ← parseHVList env r f (i + 1); some (v :: vs, r)
+    | ']' :: r => some ([v], r)
+    | _ => none
+end
+
+partial def nbeq : NVal → NVal → Bool
+  | .plain a, .plain b => a == b
+  | .handle t p, .handle u q => t == u && nbeq p q
+  | .list as, .list bs => as.length == bs.length && (as.zip bs).all (fun (a, b) => nbeq a b)
+  | .tagged i p, .tagged j q => i == j && nbeq p q
+  | _, _ => false
+
+def mkNHash (tbl : List (Nat × NVal × Nat)) : Nat → NVal → Nat := fun tid p =>
+  match tbl.find? (fun e => e.1 == tid && nbeq e.2.1 p) with
+  | some e => e.2.2
+  | none => 2 ^ 128   -- a payload the harness never told us about: cannot collide with a real hash
+
+/-- render a decoded value; a handle prints the class of its allocation: the pre-order index of the first handle
+    occurrence with the same (type id, slot) -/
+partial def renderDV (env : Nat → ND) (all : List (Nat × Nat)) : ND → DVal → Nat → String × Nat
+  | .plain pd, .plain v, n => (render pd v, n)
+  | .handle _, .handle tid slot p, n =>
+    let cls := (all.findIdx? (fun e => e.1 == tid && e.2 == slot)).getD n
+    let (s, n') := renderDV env all (env tid) p (n + 1)
+    ("h" ++ toString cls ++ "{" ++ s ++ "}", n')
+  | .seq ed, .list vs, n =>
+    let (ss, n') := vs.foldl (fun (acc, n) v => let (s, n') := renderDV env all ed v n; (acc ++ [s], n')) ([], n)
+    ("[" ++ ",".intercalate ss ++ "]", n')
+  | .tup ds, .list vs, n =>
+    let (ss, n') := (ds.zip vs).foldl (fun (acc, n) (d, v) => let (s, n') := renderDV env all d v n; (acc ++ [s], n')) ([], n)
+    ("[" ++ ",".intercalate ss ++ "]", n')
+  | .opt _, .tagged 0 _, n => ("#0([])", n)
+  | .opt ed, .tagged i p, n => let (s, n') := renderDV env all ed p n; ("#" ++ toString i ++ "(" ++ s ++ ")", n')
+  | .enm ds, .tagged i p, n =>
+    let (s, n') := renderDV env all ((ds[i]?).getD (.tup [])) p n
+    ("#" ++ toString i ++ "(" ++ s ++ ")", n')
+  | _, _, n => ("?", n)
+
+def showNErr : NErr → String
+  | .eof => "eof" | .invalid => "invalid" | .panic => "panic" | .outOfFuel => "out-of-fuel"
+
+def nFuel : Nat := 1000000
+
+def nOutcome (env : Nat → ND) (d : ND) (total : Nat) : DR DVal → String
+  | .ok (dv, rest, _) =>
+    "ok|" ++ (renderDV env (dv.handles.map (fun x => (x.1, x.2.1))) d dv 0).1 ++ "|" ++ toString (total - rest.length)
+  | .error e => showNErr e
+
+/-- fields: mode, env, type, value, stream-or-junk, [extra value whose hashes are added to the table] -/
+def doN (mutated : Bool) (fields : List String) : String :=
+  match fields with
+  | mode :: envS :: tyS :: valS :: hexS :: extra =>
+    match parseEnv envS, parseND tyS.toList, unhex hexS with
+    | some envT, some (d, []), some bs =>
+      let envD := envND envT
+      match parseHV envD d valS.toList with
+      | some (hv, []) =>
+        let extraTbl : Option (List (Nat × NVal × Nat)) :=
+          match extra with
+          | [] | ["-"] => some []
+          | [xs] => (match parseHV envD d xs.toList with | some (x, []) => some x.table | _ => none)
+          | _ => none
+        match extraTbl with
+        | none => "bad-op"
+        | some xt =>
+          let env : Nat → NTy := fun tid => (envD tid).toNTy
+          let t := d.toNTy
+          let v := hv.toNVal
+          if !wtN env t v then "ill-typed" else
+          let hash := mkNHash (hv.table ++ xt)
+          let bytes := encodeTop env hash t v
+          -- warm: the decoder's interner is the encoder's, every original alive = what decoding once leaves behind
+          let I0 : Option NInterner :=
+            if mode = "warm" then (match dec env hash nFuel t bytes [] with | .ok (_, _, I) => some I | .error _ => none)
+            else some []
+          match I0 with
+          | none => "warm-failed"
+          | some I0 =>
+            if mutated then nOutcome envD d bs.length (dec env hash nFuel t bs I0)
+            else
+              let stream := bytes ++ bs
+              hex bytes ++ "|" ++ nOutcome envD d stream.length (dec env hash nFuel t stream I0)
+      | _ => "bad-op"
+    | _, _, _ => "bad-op"
+  | _ => "bad-op"
+
+/-- encoder only (colliding hashes) -/
+def doQ (fields : List String) : String :=
+  match fields with
+  | [envS, tyS, valS] =>
+    match parseEnv envS, parseND tyS.toList with
+    | some envT, some (d, []) =>
+      let envD := envND envT
+      match parseHV envD d valS.toList with
+      | some (hv, []) =>
+        let env : Nat → NTy := fun tid => (envD tid).toNTy
+        if !wtN env d.toNTy hv.toNVal then "ill-typed" else
+        hex (encodeTop env (mkNHash hv.table) d.toNTy hv.toNVal)
+      | _ => "bad-op"
+    | _, _ => "bad-op"
+  | _ => "bad-op"
+
+end nested
+
 def handle (fix : Bool) (line : String) : String :=
   match splitOn1 line '|' with
   | "V" :: rest => doV fix rest
@@ -441,6 +656,9 @@ def handle (fix : Bool) (line : String) : String :=
   | "P" :: rest => doP fix rest
   | "I" :: rest => doI fix rest
   | "J" :: rest => doJ fix rest
+  | "N" :: rest => doN false rest
+  | "O" :: rest => doN true rest
+  | "Q" :: rest => doQ rest
   | _ => "bad-op"
 
 end CodecDriver
